@@ -26,6 +26,7 @@ Require Import Cirbo.Proofs.TraverseInv Cirbo.Proofs.PassRebuild Cirbo.Proofs.Pa
         Cirbo.Proofs.PassMD Cirbo.Proofs.PassPipeline Cirbo.Proofs.PassTotal Cirbo.Proofs.PassAll
         Cirbo.Proofs.PassWitness Cirbo.Proofs.PassEntry.
 Require Import Cirbo.Generated.PassesGen Cirbo.Generated.PipelineGen Cirbo.Proofs.PassesGen.
+Require Import Cirbo.Generated.TransformerGen Cirbo.Proofs.TransformerGen.
 
 (* ---- RemoveRedundantGates() ---- *)
 Theorem C03_remove_redundant_gates : forall c c',
@@ -227,13 +228,52 @@ Theorem C03_passes_regenerated :
   (* the pipeline machinery (Generated/PipelineGen.v): the class attribute __idempotent__, the pre / post
      transformer lists that the constructors hand to Transformer.__init__ (as_distinct of a leaf is built from
      them), the reduction loop Transformer.linearize_reduce_transformers and cleanup are regenerated;
-     linearize_transformers / as_distinct / apply_transformers / transform / `|` / the __eq__ methods are not *)
+     linearize_transformers / as_distinct / apply_transformers / transform / `|` / the __eq__ methods: see
+     C03_pipeline_machinery_regenerated below (translator T24) *)
   (forall t, gen_is_idempotent t = is_leaf_idempotent t) /\
   (forall t, (forall ts, t <> TComp ts) ->
      as_distinct t = linearize (gen_pre_transformers t) ++ [t] ++ linearize (gen_post_transformers t)) /\
   (forall ts, gen_linearize_reduce_transformers ts = Ok (linearize_reduce ts)) /\
   (forall c heavy, gen_cleanup c heavy = cleanup c heavy).
 Proof. exact passes_regenerated. Qed.
+
+(* the dispatching methods of core/circuit/transformer.py - linearize_transformers, as_distinct (both classes),
+   apply_transformers, transform, TransformerComposition._transform, the three __eq__ (Transformer,
+   RemoveRedundantGates, TransformerComposition), __or__ / __ror__ - are regenerated as well (translator T24,
+   Generated/TransformerGen.v): dynamic dispatch on `self` is a match on the constructor with one arm per class body,
+   generators are run to completion, the mutual recursion through the class hierarchy is a mutual Fixpoint on explicit
+   fuel (`gen_f` = `gen_f_fuel` at a default fuel; the results are proved independent of the fuel above a bound),
+   functools.reduce is a monadic fold, `return NotImplemented` is None.  They equal the hand model for EVERY
+   transformer term and circuit.  The NotImplemented protocol is modelled between transformer objects only
+   (`other` ranges over Passes.transformer, not over arbitrary Python objects). *)
+Theorem C03_pipeline_machinery_regenerated :
+  (* as_distinct (Transformer's and TransformerComposition's, imply_deps True / False) and linearize_transformers,
+     with the default fuel and with every fuel above a bound *)
+  (forall t, gen_as_distinct t true = Ok (as_distinct t)) /\
+  (forall t, gen_as_distinct t false = Ok (match t with TComp _ => as_distinct t | _ => [t] end)) /\
+  (forall ts, gen_linearize_transformers ts = Ok (linearize ts)) /\
+  (forall t, exists n, forall f, n <= f -> gen_as_distinct_fuel f t true = Ok (as_distinct t)) /\
+  (forall ts, exists n, forall f, n <= f -> gen_linearize_transformers_fuel f ts = Ok (linearize ts)) /\
+  (* apply_transformers(circuit, list) / (circuit, composition) / (circuit, a transformer that is not a composition:
+     TypeError, not iterable); every fuel >= 2 *)
+  (forall c ts, gen_apply_transformers c (inl ts) = apply_transformers c ts) /\
+  (forall f c ts, gen_apply_transformers_fuel (S (S f)) c (inl ts) = apply_transformers c ts) /\
+  (forall f c ts, gen_apply_transformers_fuel (S (S f)) c (inr (TComp ts)) = apply_transformers c [TComp ts]) /\
+  (forall f c t, (forall l, t <> TComp l) -> gen_apply_transformers_fuel (S f) c (inr t) = Err PyTypeError) /\
+  (* x._transform(c): the four passes (T15) for a leaf, TransformerComposition._transform for a composition;
+     x.transform(c) *)
+  (forall f t c, (forall l, t <> TComp l) -> gen__transform_fuel (S f) t c = transform_leaf t c) /\
+  (forall f c ts, gen__transform_fuel (S (S (S f))) (TComp ts) c = apply_transformers c [TComp ts]) /\
+  (forall t c, gen_transform t c = transform t c) /\
+  (* `a == b`: Transformer.__eq__, RemoveRedundantGates.__eq__, TransformerComposition.__eq__ and the NotImplemented
+     protocol (the reflected call always answers: the identity fallback is never reached) *)
+  (forall a b, gen_py_eq a b = transformer_eqb a b) /\
+  (forall a b, gen___eq__ a b = None -> gen___eq__ b a <> None) /\
+  (* `a | b`: __or__ answers between transformers; __ror__ (never reached between transformers) is its mirror image *)
+  (forall a b, gen___or__ a b = Ok (Some (pipe a b))) /\
+  (forall a b, gen___ror__ b a = Ok (Some (TComp (match a with TComp l => l | _ => [a] end ++ as_distinct b)))) /\
+  (forall a b, gen_py_or a b = Ok (Some (pipe a b))).
+Proof. exact transformer_regenerated. Qed.
 
 (* ---- non-vacuity: inputs a b u; n1 = NOT a; n2 = NOT n1; g1 = AND(n2,b); g2 = AND(b,n2);
    e = OR(g1,g2); d = NOT b (dead); outputs e, g2, n2 ---- *)
